@@ -3,7 +3,7 @@
    (task and node paths with all parents, config file, root, git files; exclude patterns
    matched with pathlib semantics) is modelled in Model/Clean.v and compared with the
    real command line by the correspondence check. *)
-From Verif Require Import Base.Prelude Model.Clean Proofs.CleanProofs.
+From Verif Require Import Base.Prelude Model.Clean Proofs.CleanProofs Proofs.CleanMulti.
 
 (* what is listed: an unknown subtree of a given path, reached without entering an excluded
    directory; whole directories only with --directories *)
@@ -67,6 +67,59 @@ Theorem C11_git_children_excluded : forall pre name pats,
   In (false, [s_git; star]) pats -> excluded pats (pre ++ [s_git; name]) = true.
 Proof. exact git_children_excluded. Qed.
 
+(* ---- several path arguments, and force mode as the loop it is: the listed paths are removed
+   one after the other (rmtree for a directory, unlink otherwise; a path that no longer exists
+   makes unlink raise = None).  [s] is the set of existing paths. *)
+
+(* whatever is listed with several arguments is listed by one of them on its own, so the
+   guarantees above hold for it *)
+Theorem C11_multi_listed_from_args : forall known excl dirs args x,
+  In x (listing_multi known excl dirs args) ->
+  exists a, In a args /\ In x (listing known excl dirs (fst a) (snd a)).
+Proof. exact multi_listed_from_args. Qed.
+
+(* and what one argument lists is listed, or lies inside a listed directory *)
+Theorem C11_multi_covers : forall known excl dirs args a x,
+  In a args -> In x (listing known excl dirs (fst a) (snd a)) ->
+  exists y, In y (listing_multi known excl dirs args) /\ is_prefix (fst y) (fst x) = true.
+Proof. exact multi_covers. Qed.
+
+(* force mode removes exactly what dry-run mode lists: the loop does not fail, and a path is
+   left iff it is not at or below a path dry-run mode prints - whatever the arguments are
+   (repeated, nested, overlapping) *)
+Theorem C11_force_removes_exactly_what_dry_run_lists : forall known excl dirs args s,
+  (forall a x, In a args -> In x (all_paths (fst a) (snd a)) -> In (fst x) s) ->
+  exists s', snd (clean_multi known excl Force dirs args s) = Some s' /\
+    forall r, In r s' <->
+              In r s /\ forall q, In q (map fst (fst (clean_multi known excl DryRun dirs args s))) ->
+                                   is_prefix q r = false.
+Proof. exact force_multi_removes_exactly_listed. Qed.
+
+Theorem C11_dry_run_multi_removes_nothing : forall known excl dirs args s,
+  snd (clean_multi known excl DryRun dirs args s) = Some s.
+Proof. exact dry_multi_removes_nothing. Qed.
+
+(* the hypothesis is satisfiable, and the statement was false of the listings before F26/F27 *)
+Example C11_multi_nonvacuous :
+  forall a x, In a [([c_p], t_aa); ([c_p; c_aa], t_in)] -> In x (all_paths (fst a) (snd a)) -> In (fst x) fs_w.
+Proof.
+  intros a x [<-|[<-|[]]] Hx; vm_compute in Hx |- *; intuition (subst; auto).
+Qed.
+
+Theorem C11_repeated_argument_refuted_before_F26 :
+  snd (clean_multi_f26 nothing nothing false [([c_p], t_aa); ([c_p], t_aa)] fs_w) = None.
+Proof. exact repeated_argument_refuted. Qed.
+
+Theorem C11_nested_argument_refuted_before_F27 :
+  snd (clean_multi_f27 nothing nothing true [([c_p], t_aa); ([c_p; c_aa], t_in)] fs_w) = None.
+Proof. exact nested_argument_refuted. Qed.
+
+Print Assumptions C11_multi_listed_from_args.
+Print Assumptions C11_multi_covers.
+Print Assumptions C11_force_removes_exactly_what_dry_run_lists.
+Print Assumptions C11_dry_run_multi_removes_nothing.
+Print Assumptions C11_repeated_argument_refuted_before_F26.
+Print Assumptions C11_nested_argument_refuted_before_F27.
 Print Assumptions C11_listed_spec.
 Print Assumptions C11_listed_safe.
 Print Assumptions C11_listed_inside.
